@@ -36,6 +36,34 @@ CLAIMED = {
         "pattern/matcher objects are assumptions of the theorems exercised by the oracle only.",
         "Lean 4 proof (state-independence + induction over history) + differential histories",
         "DESIGN.md §7 C09"),
+    "C18": (
+        "Machine-checked proof over the rationals (hence every real distance) that the radial bins generated from "
+        "base/masks.py are non-negative, at most 1, telescope to an edge-ramp difference and therefore sum to exactly "
+        "1 at least 0.5 px inside the annulus and to 0 at least 0.5 px outside, for every bin layout with width >= 1; "
+        "patch conditions/order, normalisation and ring+disk=disk theorems; exact-rational correspondence per pixel.",
+        "Lean kernel + standard axioms (Mathlib ordered-field lemmas); translator; distances (sqrt) and float rounding are "
+        "taken from the implementation (A-FLOAT); the clause 'area approximates pi r^2 within the perimeter' is not proved "
+        "(oracle only).",
+        "Lean 4 proof (telescoping ramps over Q) on source-generated bin expression + differential correspondence",
+        "DESIGN.md §7 C18"),
+    "C16": (
+        "Machine-checked proofs on source-generated definitions: user-template pad/crop maps source//2 onto target//2 and "
+        "preserves values for all sizes and parities; built-in masks centred on shape//2, point symmetry of radial masks, "
+        "support and <= 1 bounds of disk / gradient / background-subtraction masks, zero sum of the background-subtraction "
+        "combination, ceil crop size, constructor guards, integral RGBS default geometry; exhaustive 12x12 correspondence.",
+        "Lean kernel + standard axioms; translator; np.pad/skimage crop semantics and sqrt distances are assumptions "
+        "(A-EXT, compared exhaustively / per pixel); known findings D12 (RGBS not balanced), D13 (NaN mask when the ring is "
+        "outside the shape).",
+        "Lean 4 proof (omega / ordered field) on source-generated definitions + exhaustive correspondence",
+        "DESIGN.md §7 C16"),
+    "C19": (
+        "Machine-checked proof that the dense value of every layer of the sparse template stack (sum of the COO entries the "
+        "code emits, selector regenerated from the source) equals the template copied at the offset and clipped at the image "
+        "border, for every template size, image size, offset and pixel; feature-vector centre identity; odd bounding box of "
+        "the sparse circular stack loses no disk pixel; exhaustive small-size correspondence.",
+        "Lean kernel + standard axioms; translator; sparse.COO densification semantics (A-EXT).",
+        "Lean 4 proof (finite-sum collapse) + exhaustive correspondence",
+        "DESIGN.md §7 C19"),
 }
 
 NOT_YET = {}
